@@ -20,6 +20,9 @@ C01_Mapping == (done /\ Ms = <<>>) => result.ok /\ result.v = ExpectedOf(R, attr
 \* C03: every leaf's span lies in the region of its mistake
 C03_Spans == (done /\ ~result.ok) => \A i \in 1..Len(Leaves) : SpanFits(Leaves[i], Ms)
 
+\* C17: suggestions are sound (eligible at that position), best-match, scoped to the level
+C17_Suggest == (done /\ ~result.ok) => \A i \in 1..Len(Leaves) : AltFits(Leaves[i], Ms)
+
 \* C08: forwarding, and several attributes behave as the single merged list
 C08_Forward == done => fwd = ForwardedOf(R, attrs)
 StripSpans(r) ==
